@@ -768,6 +768,8 @@ def check(ctx: Ctx):
     from . import c15
 
     _run_rule(ctx, "check_state_writers", c15.check_state_writers)
+    # what is saved are the settings; what runs may be something bound from them when the object was built (R15.10)
+    _run_rule(ctx, "R15.10", c15.check_derived_state)
 
 
 _E = "panoptica/panoptica_evaluator.py"
